@@ -329,7 +329,10 @@ impl RangeAst {
 // ------------------------------------------------------------------------------------------
 // strategies
 
-pub const GARBAGE: &[&str] = &["foo", "1.y", ">=1.y", "1.2.3.4", "~1.2.3.4", "1.2beta4", "!1", "latest", ".1", "1..2", "a.b.c", "^1.2.3.4", "x|y", "1|2", "- 1.2beta4", "- 1.y", "- foo", "- 2foo", "-2", "1-"];
+pub const GARBAGE: &[&str] = &["foo", "1.y", ">=1.y", "1.2.3.4", "~1.2.3.4", "1.2beta4", "!1", "latest", ".1", "1..2", "a.b.c", "^1.2.3.4", "x|y", "1|2", "- 1.2beta4", "- 1.y", "- foo", "- 2foo", "-2", "1-",
+    // a component above MAX_SAFE_INTEGER makes the whole comparator unparseable (it is dropped like any other junk,
+    // it does not turn into a wildcard, wrap around or get clamped)
+    "900719925474100", "1.900719925474100", "1.2.900719925474100", "2.99999999999999999", ">=1.900719925474100.0", "<900719925474100", "^18446744073709551616", "~1.2.99999999999999999999", "1.x.900719925474100"];
 
 pub const PRE_POOL: &[&[&str]] = &[
     &["0"],
@@ -337,6 +340,9 @@ pub const PRE_POOL: &[&[&str]] = &[
     &["alpha"],
     &["beta"],
     &["rc", "1"],
+    // glued counters: ASCII order puts rc10 before rc2 (a "natural" comparison would not)
+    &["rc2"],
+    &["rc10"],
     &["alpha", "1"],
     &["alpha", "0"],
     &["a-b"],
